@@ -90,7 +90,9 @@ def main():
         finally:
             shutil.rmtree(tmp, ignore_errors=True)
     # mutants that do not violate the stated property (documented in DESIGN.md): surviving is the expected outcome
-    allowed = {"C13_lre_desc": "C13 never states which neighbours LRE uses"}
+    f3 = ("with repair F1 in place (selected items are masked out of every argmax) the revert of F3 changes nothing but the stored score of "
+          "already selected items after a warm start, which no later step reads; C08 compares pi_ on the unselected items (DESIGN 8.4)")
+    allowed = {"C13_lre_desc": "C13 never states which neighbours LRE uses", "C08_revert_F3": f3, "C08_revertfix_F3": f3}
     missed = [o for o in out if o[1] != "caught" and o[0] not in allowed]
     for o in out:
         if o[0] in allowed:
